@@ -490,3 +490,45 @@ def variant_is(g, idx, nvariants=2):
         others = {str(i) for i in range(nvariants) if i != idx}
         return listed == others
     return False
+
+
+PASS_THROUGH_CALLS = ("cmp::min", "cmp::max", "Ord>::min", "Ord>::max", "NumericId>::index", "NumericId::index", "NumericId>::from_usize",
+                      "NumericId::from_usize", "NumericId>::new", "::saturating_sub", "::saturating_add", "::wrapping_sub", "::wrapping_add",
+                      "::checked_sub", "::checked_add", "usize::min", "usize::max", "::inc", "::step_by", "::rev")
+
+
+def deep_sources(prog, f, operand, depth=0, seen=None):
+    """leaf origins of a numeric value: looks through arithmetic (bin/un ops), min/max/index()/from_usize-like
+    calls and closure captures (resolved in the parent at the closure's creation site). Returns a set of
+    (fn_name, atom) with atoms as in Fn.origins (call / param / const / local ...)."""
+    if seen is None:
+        seen = set()
+    out = set()
+    if depth > 10:
+        return out
+    for a in f.origins(operand):
+        key = (f.name, a)
+        if key in seen:
+            continue
+        seen.add(key)
+        if a[0] in ("bin", "un"):
+            st = f.stmt(a[2], a[3])
+            for o in rv_operands(st[2]):
+                out |= deep_sources(prog, f, o, depth + 1, seen)
+        elif a[0] == "call" and any(a[1].endswith(p) for p in PASS_THROUGH_CALLS):
+            c = f.call_at(a[2])
+            for o in c.args:
+                out |= deep_sources(prog, f, o, depth + 1, seen)
+        elif a[0] == "param" and a[1] == 1 and f.kind == "closure" and a[2] and a[2][0].isdigit():
+            par = prog.fns.get(f.parent)
+            done = False
+            if par is not None:
+                for (bi, bj, name, ops) in par.closures_created():
+                    if name == f.name and int(a[2][0]) < len(ops):
+                        out |= deep_sources(prog, par, ops[int(a[2][0])], depth + 1, seen)
+                        done = True
+            if not done:
+                out.add(key)
+        else:
+            out.add(key)
+    return out
